@@ -235,11 +235,12 @@ fn main() {
             (3, 2, 1, power_templates.clone(), ab.clone()),
             (2, 2, 1, all17.clone(), vec!['C']),
         ],
+        // cheapest first, so that the wall cap (if it is ever hit) cuts only the last pass
         Tier::Thorough => vec![
-            (3, 3, 1, all_templates.clone(), ab.clone()),
+            (3, 2, 1, power_templates.clone(), ab.clone()),
             (2, 4, 2, all_templates.clone(), ab.clone()),
-            (4, 2, 1, power_templates.clone(), ab.clone()),
             (2, 3, 2, all17.clone(), vec!['C']),
+            (3, 2, 1, vec![0, 1, 3, 4, 6, 7, 9, 10], ab.clone()),
         ],
     };
     report.set_rule(&format!(
